@@ -299,6 +299,25 @@ class Const(Tracked):
         return Const(("pow", self.node, q), self.dim ** sympy.Rational(q.numerator, q.denominator))
 
 
+def canonical_constant(name):
+    """the key of `unyt._unit_lookup_table.physical_constants` a `physical_constants` attribute is
+    an alias of (`kboltz`, `boltzmann_constant_mks`, `kb_cgs` … -> `kb`): all of them are built by
+    `add_constants` from the same table row, so they are the same physical quantity"""
+    from unyt._unit_lookup_table import physical_constants as table
+
+    cands = [name]
+    for suf in ("_mks", "_cgs"):
+        if name.endswith(suf):
+            cands.append(name[: -len(suf)])
+    if name in ("hmks", "hcgs"):
+        cands.append("h")
+    for c in cands:
+        for key, (_v, _u, alts) in table.items():
+            if c == key or c in alts:
+                return key
+    return name
+
+
 class PcProxy:
     """stands in for the module `unyt.physical_constants` while a `_convert` is traced"""
 
@@ -312,8 +331,15 @@ class PcProxy:
         q = getattr(real, name)  # AttributeError for a constant that does not exist
         if not hasattr(q, "units"):
             raise TraceError(f"physical_constants.{name} is not a quantity")
-        used[name] = q
-        return Const(("atom", "c." + name), q.units.dimensions)
+        canon = canonical_constant(name)
+        si = float(q.in_mks().v)
+        if canon in used:
+            si0 = float(used[canon].in_mks().v)
+            if used[canon].units.dimensions != q.units.dimensions or abs(si - si0) > 1e-12 * abs(si0):
+                raise TraceError(f"physical_constants.{name} and its alias {canon} differ")
+        else:
+            used[canon] = q
+        return Const(("atom", "c." + canon), q.units.dimensions)
 
 
 def trace_branch(cls, from_dim, to_dim, in_place, params, used):
